@@ -57,7 +57,14 @@ impl<'a, T> Iterator for Iter<'a, T> {
             return None;
         }
 
-        self.impl_next_rec(self.view.dimensions() - 1)
+        match self.view.dimensions().checked_sub(1) {
+            Some(axis) => self.impl_next_rec(axis),
+            None => {
+                // Zero-dimensional view (of a one-dimensional array) holds a single element
+                self.index += 1;
+                self.view.data.first()
+            }
+        }
     }
 
     fn size_hint(&self) -> (usize, Option<usize>) {
